@@ -1,5 +1,5 @@
 """Property -> rules.  Each property's check runs the listed rules; the texts go into the evidence."""
-from .rules import tab, enc, cas, dsk, wid, rel, lay
+from .rules import tab, enc, cas, dsk, wid, rel, lay, det, vf
 
 RULESETS = {}
 RULESETS.update(tab.RULES)
@@ -9,6 +9,8 @@ RULESETS.update(dsk.RULES)
 RULESETS.update(wid.RULES)
 RULESETS.update(rel.RULES)
 RULESETS.update(lay.RULES)
+RULESETS.update(det.RULES)
+RULESETS.update(vf.RULES)
 
 PROPS = {}
 
@@ -39,3 +41,8 @@ prop("C04", ["EXP-1", "LAY-1"], "x", "y")
 prop("C05", ["DIR-1"], "x", "y")
 prop("C19", ["INC-1"], "x", "y")
 prop("C18", ["TXT-1"], "x", "y")
+prop("C17", ["DET-1", "DET-2", "DET-3", "DET-4", "DET-5", "DET-6"], "x", "y")
+prop("C10", ["VF-1", "VF-2", "VF-3", "VF-4"], "x", "y")
+prop("C11", ["CLI-1", "VF-1", "VF-3", "CAS-3"], "x", "y")
+prop("C16", ["CLI-3", "VF-1", "CAS-3", "CAS-5", "DSK-2"], "x", "y")
+prop("C09", ["VF-1", "VF-4", "DSK-7", "CAS-4", "DET-2"], "x", "y")
